@@ -196,7 +196,8 @@ def sanify_tower(rep):
         extra = {}
         if r.status == 'refuted':
             src = ("from beartype import BeartypeConf, FrozenDict\nfrom beartype.roar import BeartypeConfParamException\nbad = []\nfor k, v in ((float, None), (complex, None), (float, str)):\n"
-                   "    try: c = BeartypeConf(is_pep484_tower=True, hint_overrides=FrozenDict({k: v})); bad.append(f'{k.__name__}: {v!r} accepted; reads back {c.hint_overrides[k]!r}')\n    except BeartypeConfParamException: pass\nprint(bad); sys.exit(1 if bad else 0)\n")
+                   "    try: c = BeartypeConf(is_pep484_tower=True, hint_overrides=FrozenDict({k: v})); bad.append(f'{k.__name__}: {v!r} accepted; reads back {c.hint_overrides[k]!r}')\n    except BeartypeConfParamException: pass\n"
+                   "from typing import Union\nfor ov in ({float: Union[float, int], complex: str}, {complex: Union[complex, float, int], float: str}):\n    try: c = BeartypeConf(is_pep484_tower=True, hint_overrides=FrozenDict(ov)); bad.append(f'{ov!r} accepted; reads back {dict(c.hint_overrides)!r}')\n    except BeartypeConfParamException: pass\nprint(bad); sys.exit(1 if bad else 0)\n")
             import subprocess
             from pyvc import REPO
             p_ = subprocess.run([sys.executable, '-c', f'import sys; sys.path.insert(0, {REPO!r})\n' + src], capture_output=True, text=True)
